@@ -295,6 +295,11 @@ func (self *Metadata) enumerateTemp() ([]string, error) {
 		return nil, nil
 	} else {
 		paths, err := util.Readdirnames(td)
+		if os.IsNotExist(err) {
+			// Already cleaned up, e.g. by a run which was interrupted
+			// before it could record that.
+			return nil, nil
+		}
 		for i, p := range paths {
 			paths[i] = path.Join(td, p)
 		}
